@@ -606,7 +606,10 @@ def reuse_uniform_object(mask, mask2, geoms, patterns, sub, as_int, routes, offs
     else:
         sub_size = aa.Array2D(values=[int(s) for s in sub], mask=aa.Mask2D(mask=mask.copy(), pixel_scales=geoms[0][0], origin=geoms[0][1]))
     osu = aa.OverSamplingUniform(sub_size=sub_size)
-    osd = aa.OverSamplingDataset(uniform=osu, pixelization=osu)
+    # the dataset's two schemes differ (uniform: the scheme under test; pixelization: one sub size more everywhere), so that a
+    # pixelization grid that carries anything of the uniform grid -- whichever of the two is read first -- answers for the wrong scheme
+    sub_pix = int(max(int(v) for v in sub)) + 1
+    osd = aa.OverSamplingDataset(uniform=osu, pixelization=aa.OverSamplingUniform(sub_size=sub_pix))
     log = []
     prof = _make_profile(aa, spec, False, log)
 
@@ -668,9 +671,15 @@ def reuse_uniform_object(mask, mask2, geoms, patterns, sub, as_int, routes, offs
             data = aa.Array2D.no_mask(values=np.ones(shape), pixel_scales=ps, origin=og)
             ds = aa.Imaging(data=data, noise_map=aa.Array2D.no_mask(values=np.ones(shape), pixel_scales=ps, origin=og),
                             over_sampling=osd).apply_mask(mask=mk)
-            err = check(label + " grids.uniform", pattern, ps, og, subs, grid=ds.grids.uniform)
-            if err is None:
-                err = check(label + " grids.pixelization", pattern, ps, og, subs, sampler=ds.grids.pixelization.over_sampler)
+            subs_pix = [sub_pix] * int((~pattern).sum())
+            if t % 2 == 0:
+                err = check(label + " grids.uniform", pattern, ps, og, subs, grid=ds.grids.uniform)
+                if err is None:
+                    err = check(label + " grids.pixelization (read after grids.uniform)", pattern, ps, og, subs_pix, grid=ds.grids.pixelization)
+            else:
+                err = check(label + " grids.pixelization", pattern, ps, og, subs_pix, grid=ds.grids.pixelization)
+                if err is None:
+                    err = check(label + " grids.uniform (read after grids.pixelization)", pattern, ps, og, subs, grid=ds.grids.uniform)
         if err:
             return err + " [sequence of geometries %r, patterns %r]" % (geoms, patterns)
     return None
